@@ -240,7 +240,7 @@ fn level_text_pairs(ctx: &Ctx, rep: &mut Report, col: &Collector, level: u64) ->
         check_text(st, &[a, b], ord(level, i, 0), rep, col);
     });
     rep.merge(r);
-    json!({"alphabet": n, "texts": n * n, "chosen_others": chosen_others().iter().map(|c| up(*c)).collect::<Vec<_>>()})
+    json!({"alphabet": n, "texts": n * n, "chosen_others": chosen_others().iter().map(|c| format!("{:X}", *c as u32)).collect::<Vec<_>>().join(" ")})
 }
 
 // ---------------------------------------------------------------------------------------
@@ -331,7 +331,9 @@ fn run_small(ctx: &Ctx, rep: &mut Report, col: &Collector, level: u64, name: &st
         if i < 2 {
             rep.sample(json!({"pos": s.pos, "case": s.repr, "display": catch(|| format!("{}", s.args)).ok(), "debug": catch(|| format!("{:?}", s.args)).ok()}));
         }
-        col.report(&c, &fails, ord(level, i, 0), &|_| key_str(&s.repr), &|| json!({"case": s.repr}));
+        // numbers are keyed by the number alone; the kept representative is its first context
+        let key_repr = if s.pos == "number" || s.pos == "float" { s.repr.split('@').next().unwrap_or("").to_string() } else { s.repr.clone() };
+        col.report(&c, &fails, ord(level, i, 0), &|_| key_repr.clone(), &|| json!({"case": s.repr}));
     });
     rep.merge(r);
     total
@@ -565,6 +567,9 @@ pub fn float32_list() -> Vec<f32> {
         8388608.0,
         8388609.0,
         123456.79,
+        // the classic double-rounding witness (decimal -> binary64 -> binary32)
+        7.038531e-26,
+        -7.038531e-26,
     ]);
     for k in -149..=127i32 {
         let x = if k >= -126 { f32::from_bits(((k + 127) as u32) << 23) } else { f32::from_bits(1u32 << (k + 149)) };
@@ -612,7 +617,6 @@ fn leaves() -> Vec<(&'static str, IDLValue)> {
         ("none", IDLValue::None),
         ("reserved", IDLValue::Reserved),
         ("unit-variant-a", var(named("a"), IDLValue::Null)),
-        ("unit-variant-quoted", var(named("a b"), IDLValue::Null)),
         ("empty-record", rec(vec![])),
         ("blob", IDLValue::Blob(vec![0, 0x41, 0xff])),
         ("principal", IDLValue::Principal(princ(&[4]))),
@@ -697,6 +701,17 @@ fn build_structure() -> Vec<Small> {
                 hint,
             ));
         }
+    }
+    // --- a unit variant whose tag needs quoting, just around the thresholds where Display
+    //     hands over to the Debug printer (depth budget 10, more than 10 vector elements)
+    let q = || var(named("a b"), IDLValue::Null);
+    out.push(small1(p, "leaf=unit-variant-quoted".into(), q(), true));
+    for d in [9usize, 10, 11] {
+        out.push(small1(p, format!("opt-depth={d}:leaf=unit-variant-quoted"), nest(d, q(), &|_, x| opt(x)), true));
+        out.push(small1(p, format!("record-named-depth={d}:leaf=unit-variant-quoted"), nest(d, q(), &|_, x| rec(vec![(named("a"), x)])), true));
+    }
+    for n in [10usize, 11] {
+        out.push(small1(p, format!("vec-of-unit-variant-quoted:len={n}"), IDLValue::Vec((0..n).map(|_| q()).collect()), true));
     }
     // --- tuples vs records
     let f = |i: usize| -> IDLValue {
@@ -886,6 +901,70 @@ fn level_label_sweep(ctx: &Ctx, rep: &mut Report, col: &Collector, level: u64) -
 }
 
 // ---------------------------------------------------------------------------------------
+// thorough: every finite float32
+
+/// Every finite float32 bit pattern. The text is produced by the real printer function
+/// (`pretty::candid::value::number_to_string`, what both printers emit before
+/// ` : float32`); the reading side is pre-filtered with a two-line replica of what the
+/// grammar and `annotate_type` do with that token (`text.parse::<f64>()`, then `as f32`).
+/// Every pattern the replica reads back differently, and every 65536th pattern regardless,
+/// goes through the complete real round trip like any other case.
+fn level_f32_all(ctx: &Ctx, rep: &mut Report, col: &Collector, level: u64) -> Value {
+    let r = ctx.par_range(
+        "float32: every finite bit pattern (real printer, replica of f64-parse + `as f32`; suspects and 1/65536 confirmed by the real round trip)",
+        1 << 16,
+        16,
+        TypeEnv::new,
+        |env, i, rep| {
+            let mut suspects: Vec<u32> = vec![(i as u32) << 16];
+            let scan = catch(|| {
+                let mut sus = vec![];
+                let mut n = 0u64;
+                for lo in 0..(1u32 << 16) {
+                    let bits = ((i as u32) << 16) | lo;
+                    let x = f32::from_bits(bits);
+                    if !x.is_finite() {
+                        continue;
+                    }
+                    n += 1;
+                    let s = candid::pretty::candid::value::number_to_string(&IDLValue::Float32(x));
+                    let back = s.parse::<f64>().map(|y| (y as f32).to_bits());
+                    if back != Ok(bits) {
+                        sus.push(bits);
+                    }
+                }
+                (sus, n)
+            });
+            match scan {
+                Ok((sus, n)) => {
+                    rep.count("float32 bit patterns scanned", n);
+                    rep.count("float32 suspects from the replica", sus.len() as u64);
+                    suspects.extend(sus);
+                }
+                Err(e) => {
+                    // a panic of the printer: find the pattern with the real round trip
+                    rep.notes.push(format!("number_to_string panicked in block {i:#x}: {e}"));
+                    suspects = (0..(1u32 << 16)).map(|lo| ((i as u32) << 16) | lo).collect();
+                }
+            }
+            suspects.dedup();
+            for bits in suspects {
+                let x = f32::from_bits(bits);
+                if !x.is_finite() {
+                    continue;
+                }
+                let s = small1("float", format!("float32:bits={bits:08x}"), IDLValue::Float32(x), false);
+                let c = Case { pos: s.pos, args: &s.args, tys: &s.tys, nontrivial_hint: false };
+                let fails = check(&c, env, rep);
+                col.report(&c, &fails, ord(level, i, 0), &|_| s.repr.clone(), &|| json!({"case": s.repr}));
+            }
+        },
+    );
+    rep.merge(r);
+    json!({"bit_patterns": 1u64 << 32, "finite": (1u64 << 32) - (1u64 << 25)})
+}
+
+// ---------------------------------------------------------------------------------------
 
 pub fn run_all(ctx: &Ctx, rep: &mut Report, col: &Collector) -> Value {
     let mut scopes = serde_json::Map::new();
@@ -917,6 +996,8 @@ pub fn run_all(ctx: &Ctx, rep: &mut Report, col: &Collector) -> Value {
         scopes.insert("typed_depth2".into(), j);
         let j = level_label_sweep(ctx, rep, col, 12);
         scopes.insert("label_sweep".into(), j);
+        let j = level_f32_all(ctx, rep, col, 13);
+        scopes.insert("float32_all".into(), j);
     }
     json!({ "scopes": Value::Object(scopes) })
 }
